@@ -268,6 +268,118 @@ def srt_any_number(c):
         heap.CUSTOM_KINDS.pop("olist", None)
 
 
+def microdvd_any_number(c):
+    """MicroDVDWriter._recreate_lang for ANY number of captions (loop invariant over a z3 sequence): the
+    printed frame numbers are exactly _microtoframes(start), _microtoframes(end) of every caption, in order,
+    each once - no caption skipped, merged or printed with another one's frames.  _microtoframes is used by
+    contract (proved above; here an uninterpreted MF of the instant); the cue-text statements (which may
+    assign only new_content / node / line) are abstracted."""
+    import ast
+    import z3
+    from pyvc import heap
+    from pyvc.heap import SymList, declare, loop_rule, SEQ, INT, REAL, heap_array
+    from pyvc.interp import SymObject, function_ast
+    from pyvc.sym import zreal, mkint, Fmt, Digits, Inapplicable, cur, SStr
+    from pyvc.verify import args_by_name
+    from pycaption.base import Caption as RealCaption
+    heap.install(c.interp)
+    saved = dict(heap.SCHEMAS)
+    p = cur()
+    p.ghost["symbolic_heap"] = True
+    ISEQ = z3.SeqSort(INT)
+
+    class OpaqueList(heap.SymId):
+        def __add__(self, o):
+            return OpaqueList(cur().fresh_int("nodes"))
+        __radd__ = __add__
+        def __bool__(self):
+            return True
+        def __hash__(self):
+            return id(self)
+
+    class Text(SymObject):
+        def sym_format(self, spec):
+            return SStr([])
+
+    class FrameLog(SymObject):
+        """the MicroDVD text abstracted to the sequence of numbers printed into it"""
+        def __init__(self, F):
+            self.F = F
+        @staticmethod
+        def of(x):
+            return x if isinstance(x, FrameLog) else FrameLog(z3.Empty(ISEQ))
+        def __add__(self, piece):
+            out = self
+            for a in (piece.atoms if isinstance(piece, SStr) else []):
+                if isinstance(a, (Fmt, Digits)):
+                    out = FrameLog(z3.Concat(out.F, z3.Unit(a.val)))
+            return out
+
+    heap.CUSTOM_KINDS["olist"] = OpaqueList
+    try:
+        declare(RealCaption, start="num!", end="num!", nodes="olist", style="id", layout_info="id")
+        X = SymList(z3.Const("captions", SEQ), RealCaption)
+        n = z3.Length(X.t)
+        ST, EN = heap_array(p, RealCaption, "start"), heap_array(p, RealCaption, "end")
+        MF = z3.Function("MICROTOFRAMES", REAL, INT)
+        FR = z3.Function("FRAMES_OF", SEQ, ISEQ)          # start frame, end frame of every caption of a list
+        E0 = z3.Empty(SEQ)
+        p.assume(FR(E0) == z3.Empty(ISEQ))
+
+        def snoc(s, x):
+            return FR(z3.Concat(s, z3.Unit(x))) == z3.Concat(FR(s), z3.Unit(MF(ST[x])), z3.Unit(MF(EN[x])))
+
+        def pre(s, i):
+            return z3.SubSeq(s, 0, i)
+
+        def inv(S):
+            i = S.i
+            Xt = S.seq.t
+            S.p.assume(z3.Implies(i < z3.Length(Xt), z3.And(pre(Xt, i + 1) == z3.Concat(pre(Xt, i), z3.Unit(Xt[i])), snoc(pre(Xt, i), Xt[i]))))
+            S.p.assume(pre(Xt, 0) == E0)
+            log = FrameLog.of(S.local("sub"))
+            return [("loop_runs_over_the_captions", Xt == X.t),
+                    ("printed_frames_are_those_of_the_captions_so_far", log.F == FR(pre(Xt, i)))]
+        q = "pycaption.microdvd:MicroDVDWriter._recreate_lang"
+        fn_node = function_ast(MicroDVDWriter._recreate_lang)
+        loops = [st for st in fn_node.body if isinstance(st, ast.For)]
+        if len(loops) != 1:
+            raise Inapplicable(f"expected one loop over the captions, found {len(loops)}")
+        # cue-text statements: statements of the body that read and write nothing but the cue text (new_content / node /
+        # line, the caption and the writer), have no side effect and cannot leave the iteration early
+        text_names = {"new_content", "node", "line"}
+        tgt = {nd.id for nd in ast.walk(loops[0].target) if isinstance(nd, ast.Name)}
+        text_stmts = []
+        for st in loops[0].body:
+            names = heap.assigned_names([st])
+            used = {nd.id for nd in ast.walk(st) if isinstance(nd, ast.Name)}
+            jumps = any(isinstance(nd, (ast.Continue, ast.Break, ast.Return, ast.Raise, ast.Yield, ast.YieldFrom)) for nd in ast.walk(st))
+            if names and names <= text_names and used <= text_names | tgt | {"self"} and not jumps \
+                    and not heap.stored_fields([st]) and not heap.mutated_names([st]):
+                text_stmts.append(st)
+        skip = {nm: ("skip", None) for nm in sorted(text_names | {"start", "end"})}
+        c.interp.loop_hooks[(q, 1)] = loop_rule(
+            "print", inv, locals_=dict(skip, sub=("custom", lambda p_, v: FrameLog(z3.Const(p_._name("F"), ISEQ)))))
+        for st in text_stmts:
+            def hook(interp, s_, frame):
+                frame.locals["new_content"] = Text()
+                return "skip"
+            c.interp.stmt_hooks[(q, st.lineno)] = hook
+
+        def frames(interp, fn, a, kw):
+            A = args_by_name(fn, a, kw)
+            return mkint(MF(zreal(A["micro"])))
+        c.interp.contracts["pycaption.microdvd:MicroDVDWriter._microtoframes"] = frames
+        r = c.call(MicroDVDWriter._recreate_lang, c.new(MicroDVDWriter), X, compare=False)
+        log = FrameLog.of(r)
+        p.assume(pre(X.t, n) == X.t)
+        c.ensure("printed_frames_are_start_and_end_of_every_caption_in_order", log.F == FR(X.t))
+    finally:
+        heap.SCHEMAS.clear()
+        heap.SCHEMAS.update(saved)
+        heap.CUSTOM_KINDS.pop("olist", None)
+
+
 def dfxp_p_times(c):
     """<p begin= end=> of the DFXP writers (A: bs4 new_tag keeps the attribute values)"""
     W = c.pick("writer", [DFXPWriter, LegacyDFXPWriter])
@@ -584,6 +696,8 @@ def run(ctx):
     P("srt.SRTWriter._recreate_lang[2 captions]", srt_timing_lines,
       functions=[SRTWriter._recreate_lang, SRTWriter._recreate_line])
     P("srt.SRTWriter._recreate_lang[any number of captions]", srt_any_number, functions=[SRTWriter._recreate_lang], crosscheck=False)
+    P("microdvd.MicroDVDWriter._recreate_lang[any number of captions]", microdvd_any_number,
+      functions=[MicroDVDWriter._recreate_lang], crosscheck=False)
     P("dfxp._recreate_p_tag", dfxp_p_times, functions=[DFXPWriter._recreate_p_tag, LegacyDFXPWriter._recreate_p_tag])
     P("sami.SAMIWriter._recreate_p_tag", sami_sync_decision,
       functions=[SAMIWriter._recreate_p_tag, SAMIWriter._recreate_blank_tag, SAMIWriter._recreate_sync])
@@ -595,6 +709,7 @@ def run(ctx):
     WS.prove_sami_write_skeleton(ctx)         # (the sync bookkeeping starts afresh for every language)
     WS.prove_single_positioning_write(ctx)    # (force= reaches the DFXP writer: the cues of the forced language, no others)
     WS.prove_legacy_write_skeleton(ctx)
+    WS.prove_plain_write_skeleton(ctx)        # (SRT / MicroDVD: every language handed to _recreate_lang once, in order)
     import props.C14 as C14
     P("webvtt.WebVTTWriter.write/language", C14.webvtt_write_language, functions=[WebVTTWriter.write], crosscheck=False)   # (an absent lang= writes no cue)
     # the legacy / single-position DFXP writers merge exactly the runs of IDENTICAL spans (contract shared with C19)
